@@ -118,7 +118,12 @@ def shape_of(text):
 
 
 def main(libdir):
-    objs = sorted(os.path.join(libdir, f) for f in os.listdir(libdir) if f.endswith(".o") and f != "symtab.o")
+    # only the members of the archive: the build directory also holds harness objects (symtab.o, the combined,
+    # section-renamed copy of the library made for C18) whose merged text would smear the per-function regions
+    members = set(subprocess.run(["ar", "t", os.path.join(libdir, "isal.a")], stdout=subprocess.PIPE, text=True, check=True).stdout.split())
+    objs = sorted(os.path.join(libdir, f) for f in os.listdir(libdir) if f.endswith(".o") and f in members)
+    if len(objs) != len(members):
+        raise RuntimeError("archive members without an object file in %s: %s" % (libdir, sorted(members - set(os.path.basename(o) for o in objs))[:5]))
     # ---- function symbols
     funcs = {}      # obj -> sorted list of (addr, name) in .text
     global_of = {}  # global function name -> obj
